@@ -200,6 +200,53 @@ def h_shape_checks(env, which):
         raise ValueError(which)
 
 
+COEFS_C = "ciderpress/lib/mod_cider/cider_coefs.c"
+
+
+def h_spline_plan(env, nalpha, spline_size, formula, order, ng=1):
+    """NLDFSplinePlan.get_a2q_fast + _get_interpolation_coefficients (real wrappers -> IR of cider_ind_*, cider_ind_clip,
+    cider_coefs_spline_*) with raise_large_expnt_error=False (the accepted saturating mode) and a spline table of exactly
+    spline_size rows: for every exponent the index handed to C is the documented knot coordinate clipped to [0, spline_size - 1),
+    and the coefficient routine reads only inside the table"""
+    plans, st = env.m.plans, env.m.settings
+    s = st.NLDFSettingsVJ("GGA", [1.0, 0.0], "one", ["se"], [[1.0, 0.0]])
+    S = spline_size if spline_size is not None else nalpha
+
+    class P(plans.NLDFSplinePlan):
+        def _run_setup(self):
+            tabs = [env.arr("w%d" % k, (S, self.nalpha, 4), lo="-2", hi="2") for k in range(2)]
+            self._alpha_transform = tabs
+            self._local_alpha_transform = tabs
+    ok, plan = env.attempt("plan_constructed", lambda: P(s, 1, 0.5, 2.0, nalpha, coef_order=order, alpha_formula=formula, spline_size=spline_size, raise_large_expnt_error=False))
+    if not ok:
+        return
+    a = env.arr("a", (ng,), "pos", lo="1/64", hi="4096")
+    ok, out = env.attempt("get_a2q_fast_returns", lambda: plan.get_a2q_fast(a.copy()))
+    if not ok:
+        return
+    di, ddi = out
+    log = plans.np.log if env.sym else np.log
+    a0, lam = env.const(Fraction(float(plan.alpha0))), env.const(Fraction(float(plan.lambd)))     # exact constants (log of a float would be a rounded number)
+    for g in range(ng):
+        q = log(a[g] / a0) / log(lam) if formula == "etb" else log(a[g] / a0 + 1) / log(lam)
+        t = q * env.const(Fraction(S - 1, nalpha - 1))          # knot coordinate of this exponent in the spline table
+        env.holds("index_%d_nonnegative" % g, di[g] >= 0)
+        env.holds("index_%d_below_last_knot" % g, di[g] < S - 1)
+        if bool(t > 0) and bool(t < S - 1):
+            env.equal("index_%d_is_documented_knot_coordinate" % g, di[g], t)
+            env.deriv("index_%d_derivative" % g, di[g], ("a", (g,)), ddi[g])
+        else:
+            env.equal("clipped_index_%d_derivative_zero" % g, ddi[g], env.const(0))
+    if env.sym:
+        from ..llsym import bridge
+        bridge.FLOOR_HINTS = list(range(S + 4))
+    try:
+        ok, _ = env.attempt("coefficient_routine_reads_inside_the_table", lambda: plan._get_interpolation_coefficients(di.copy(), i=0, local=False))
+    finally:
+        if env.sym:
+            bridge.FLOOR_HINTS = ()
+
+
 def tasks(tier):
     out = []
     for case in ["alpha0<=0", "lambd<=1", "rhocut<0", "expcut<0", "rhocut,expcut>=0", "nalpha=0", "nalpha=-1", "nalpha=2.5", "nalpha=str", "nspin=0", "nspin=3", "nspin=None",
@@ -215,6 +262,12 @@ def tasks(tier):
     for nalpha, stride, offset, a2y in lay:
         out.append(Task("buffers/reduce_angc_ylm_/%s/nalpha%d_stride%d_offset%s" % ("a2y" if a2y else "y2a", nalpha, stride, offset), h_reduce_angc_wrapper,
                         dict(nalpha=nalpha, stride=stride, offset=offset, a2y=a2y), mods="grids"))
+    sp = [(3, None, "etb", "gq"), (3, 5, "etb", "gq"), (3, 5, "zexp", "qg"), (4, 3, "etb", "qg")]
+    if tier == "thorough":
+        sp += [(3, 5, "etb", "qg"), (3, 5, "zexp", "gq"), (4, 3, "zexp", "gq"), (3, 7, "etb", "gq"), (5, 3, "etb", "gq")]
+    for nalpha, S, formula, order in sp:
+        out.append(Task("buffers/NLDFSplinePlan/nalpha%d_spline%s/%s/%s" % (nalpha, S, formula, order), h_spline_plan, dict(nalpha=nalpha, spline_size=S, formula=formula, order=order),
+                        mods="dft", max_paths=256))
     from . import c11, c20
     for kind in ["const*subset_slice_open", "const*subset_slice_step", "const*subset_list", "full"]:
         out.append(Task("buffers/RBFEvaluator/%s" % kind, c11.h_rbf, dict(kind=kind), mods="kernels", max_paths=16))
@@ -241,6 +294,8 @@ def prepare(tier):
     g.grids_indexer
     bridge.install(common.ctx(), "libmcider", GRIDS_C, ["reduce_angc_to_ylm", "reduce_ylm_to_angc"], hybrid=True, stats=CSTATS)
     bridge.module(GRIDS_C)
+    bridge.install(common.ctx(), "libmcider", COEFS_C, ["cider_ind_etb", "cider_ind_zexp", "cider_ind_clip", "cider_coefs_spline_gq", "cider_coefs_spline_qg"], hybrid=True, stats=CSTATS)
+    bridge.module(COEFS_C)
     k = sym_mods("kernels")
     k.fn, k.xc_evaluator, k.kernels, k.lcao_convolutions
 
